@@ -302,8 +302,19 @@ def _ite_val(g, a, b, memo):
         return SliceRef(back, zite(g, a.start, b.start + off), zite(g, a.length, b.length))
     if isinstance(a, Opaque) and isinstance(b, Opaque):
         return a if a.tag == b.tag else Opaque('merge(%s|%s)' % (a.tag, b.tag))
-    if isinstance(a, Model) and isinstance(b, Model) and a.kind == b.kind and set(a.f) == set(b.f):
-        return Model(a.kind, **{k: ite_val(g, a.f[k], b.f[k], memo) for k in a.f})
+    if isinstance(a, Model) and isinstance(b, Model) and a.kind == b.kind:
+        out = {}
+        for k in set(a.f) | set(b.f):
+            x, y = a.f.get(k), b.f.get(k)
+            if isinstance(x, (bool, tuple, str)) or isinstance(y, (bool, tuple, str)) or x is None or y is None:
+                xv = x if x is not None else (False if isinstance(y, bool) else y)
+                yv = y if y is not None else (False if isinstance(x, bool) else x)
+                if xv != yv:
+                    raise Unsupported("merge of %s models that differ in %s" % (a.kind, k))
+                out[k] = xv
+            else:
+                out[k] = ite_val(g, x, y, memo)
+        return Model(a.kind, **out)
     if isinstance(a, FnItem) and isinstance(b, FnItem) and a.text == b.text:
         return a
     raise Unsupported("cannot merge %r with %r" % (type(a).__name__, type(b).__name__))
@@ -825,6 +836,10 @@ class Executor:
             return self.project_downcast(base, step[1])
         if k == 'idx':
             return self.index_value(base, step[1])
+        if k == 'vecitem':
+            if isinstance(base, Model) and base.kind == 'vec':
+                return base.f['items'].fields[step[1]]
+            raise Unsupported("vecitem step into %s" % type(base).__name__)
         raise Unsupported("projection step %r" % (step,))
 
     def project(self, st, base, p, fn):
@@ -962,6 +977,14 @@ class Executor:
                 self.write_cell(st, base.cell, base.path + rest, val)
                 return base
             raise Unsupported("update through %s" % type(base).__name__)
+        if k == 'vecitem':
+            if isinstance(base, Model) and base.kind == 'vec':
+                items = list(base.f['items'].fields)
+                items[step[1]] = self.update(st, items[step[1]], rest, val)
+                f = dict(base.f)
+                f['items'] = Agg(items, 'vecitems')
+                return Model('vec', **f)
+            raise Unsupported("vecitem update of %s" % type(base).__name__)
         if k == 'idx':
             if isinstance(base, Agg):
                 i = zsimp(step[1])
